@@ -78,6 +78,7 @@ type xClass struct {
 	Ctor    *xBody
 	Methods []*xBody
 	IsExc   bool // exception class (has 内容)
+	NoContent bool // … except this one: it carries its text in a property 码 and has no 内容 at all
 }
 
 type xModule struct {
@@ -88,6 +89,7 @@ type xModule struct {
 	Main    *xBody // only for the main module
 	Source  string
 	CRLF    bool
+	MixedEOL bool
 	// Private: importers list this module's functions (and exception class) by name; its ordinary
 	// class is named 箱 like the class of every other private module and stays inside the module
 	Private bool
@@ -223,6 +225,7 @@ func genExcProgram(t *zsim.Tape) *xProgram {
 			if latin {
 				c.Name = []string{"HttpError", "HTTPError", "httpError"}[i]
 			}
+			c.NoContent = t.Draw(3) == 2
 			m.Classes = append(m.Classes, c)
 			g.classes = append(g.classes, c)
 		}
@@ -308,6 +311,7 @@ func genExcProgram(t *zsim.Tape) *xProgram {
 			g.catches(m.Main, fs, cs)
 		}
 		m.CRLF = t.Draw(6) == 0
+		m.MixedEOL = t.Draw(5) == 4
 		p.Mods = append([]*xModule{m}, p.Mods...)
 	}
 	if nm == 1 && t.Draw(4) == 3 {
@@ -345,6 +349,11 @@ func makeBare(m *xModule) {
 		for _, c := range b.Catches {
 			if c.Class == "探针异常" {
 				c.Class = "异常"
+				for _, st := range c.Body {
+					if st.Kind == "showexc" {
+						st.Class = "异常"
+					}
+				}
 			}
 			if seen[c.Class] {
 				continue
@@ -409,7 +418,7 @@ func (g *xGen) catches(b *xBody, fs []*xBody, cs []*xClass) {
 		used[cls] = true
 		c := &xCatch{Class: cls}
 		hb := &xBody{Kind: "handler", Module: b.Module, Name: b.Name + "·拦截", Class: b.Class, Param: b.Param}
-		c.Body = append(c.Body, &xStmt{Kind: "showexc"})
+		c.Body = append(c.Body, &xStmt{Kind: "showexc", Class: cls})
 		c.Body = append(c.Body, g.stmts(hb, fs, cs, g.t.Draw(3), 2, false)...)
 		if g.t.Draw(3) != 0 && b.Kind != "ctor" {
 			c.Body = append(c.Body, &xStmt{Kind: "ret", Text: fmt.Sprintf("%s救%d", b.Name, i)})
@@ -687,6 +696,8 @@ func (g *xGen) stmtsIn(b *xBody, fs []*xBody, cs []*xClass, n int, depth int, to
 // ------------------------------------------------------------------ renderer (assigns physical lines)
 
 type xRender struct {
+	noContent map[string]bool // exception classes without a 内容 property
+	mixed     bool // line ends vary from line to line
 	selective map[string]string // module name -> "a、b、c" for imports by name list
 	quiet int // number of statements before which no layout noise is inserted
 	sb   strings.Builder
@@ -700,7 +711,12 @@ func (x *xRender) emit(indent int, s string) int {
 	ln := x.line
 	x.sb.WriteString(strings.Repeat("\t", indent))
 	x.sb.WriteString(s)
-	x.sb.WriteString(x.nl)
+	if x.mixed {
+		// a file edited on several systems: every line ends in LF or CRLF as it happens to
+		x.sb.WriteString([]string{"\n", "\r\n"}[x.t.Draw(2)])
+	} else {
+		x.sb.WriteString(x.nl)
+	}
 	x.line += strings.Count(s, "\n")
 	return ln
 }
@@ -722,6 +738,13 @@ func (x *xRender) noise(indent int) {
 		x.emit(indent, "令"+fmt.Sprintf("串%d", x.line)+" = “甲\n\n\n\n乙\n”")
 	case 7: // an empty line inside a comment
 		x.emit(indent, "注：“多行注释\n\n"+strings.Repeat("\t", indent)+"第三行”")
+	case 9: // runs of empty lines
+		x.emit(0, "")
+		x.emit(0, "")
+	case 10: // (a line of white space only is an indentation error in Zn, so: three empty lines)
+		x.emit(0, "")
+		x.emit(0, "")
+		x.emit(0, "")
 	case 8: // literal and comment whose inner line breaks follow the file's own convention
 		x.emit(indent, "令"+fmt.Sprintf("串%d", x.line)+" = “多行文本"+x.nl+x.nl+"第三行"+x.nl+"”")
 	}
@@ -800,7 +823,11 @@ func (x *xRender) stmts(indent int, ss []*xStmt) {
 		case "setthis":
 			s.Line = x.emit(indent, "其值 = 其值 + 1")
 		case "showexc":
-			s.Line = x.emit(indent, "（显示：“拦截到”、其内容）")
+			if x.noContent[s.Class] {
+				s.Line = x.emit(indent, "（显示：“拦截到”、其码）")
+			} else {
+				s.Line = x.emit(indent, "（显示：“拦截到”、其内容）")
+			}
 		case "throw":
 			s.Line = x.emit(indent, fmt.Sprintf("抛出%s：“%s”！", s.Class, s.Text))
 		case "break":
@@ -884,11 +911,12 @@ func (x *xRender) body(indent int, b *xBody) {
 	}
 }
 
-func renderModule(t *zsim.Tape, m *xModule, withProbe bool, selective map[string]string) {
-	x := &xRender{t: t, nl: "\n", selective: selective}
+func renderModule(t *zsim.Tape, m *xModule, withProbe bool, selective map[string]string, noContent map[string]bool) {
+	x := &xRender{t: t, nl: "\n", selective: selective, noContent: noContent}
 	if m.CRLF {
 		x.nl = "\r\n"
 	}
+	x.mixed = m.MixedEOL
 	if m.Bare && m.Main != nil {
 		// line 1 is the first top-level statement; the declarations follow, the handlers end the file
 		x.quiet = 1
@@ -911,11 +939,15 @@ func renderModule(t *zsim.Tape, m *xModule, withProbe bool, selective map[string
 	for _, c := range m.Classes {
 		x.emit(0, "定义"+c.Name+"：")
 		if c.IsExc {
-			x.emit(1, "其内容 = “”")
+			prop := "内容"
+			if c.NoContent {
+				prop = "码"
+			}
+			x.emit(1, "其"+prop+" = “”")
 			x.emit(0, "")
 			x.emit(0, "如何新建"+c.Name+"？")
 			x.emit(1, "输入文")
-			x.emit(1, "其内容 = 文")
+			x.emit(1, "其"+prop+" = 文")
 			x.emit(0, "")
 			continue
 		}
@@ -982,6 +1014,7 @@ func sv(s string) xVal { return xVal{str: &s} }
 type xRaise struct {
 	class string // 异常 / custom class name / 探针异常
 	msg   string
+	code  string // what an exception object of a class without 内容 carries in its property 码
 	kind  string // throw div0 conv probe.signal probe.goerror probe.runtime probe.custom
 	chain []xFrameRef
 	depth int
@@ -1105,12 +1138,23 @@ func (m *xRef) run(ss []*xStmt) (ret *xVal, ex *xRaise) {
 		case "setthis":
 			fr.this.val++
 		case "showexc":
-			m.display = append(m.display, "拦截到 "+fr.exc.msg)
+			if c := m.classes[fr.exc.class]; c != nil && c.NoContent {
+				m.display = append(m.display, "拦截到 "+fr.exc.code)
+			} else {
+				m.display = append(m.display, "拦截到 "+fr.exc.msg)
+			}
 		case "break":
 			return nil, &xRaise{class: "\x00loop", kind: "break"}
 		case "continue":
 			return nil, &xRaise{class: "\x00loop", kind: "continue"}
 		case "throw":
+			if c := m.classes[s.Class]; c != nil && c.NoContent {
+				// an object of a class without 内容: a handler of that class still catches it; uncaught,
+				// there is no message to report
+				ex := m.raise(s.Class, "", "throw")
+				ex.code = s.Text
+				return nil, ex
+			}
 			return nil, m.raise(s.Class, s.Text, "throw")
 		case "div0":
 			return nil, m.raise("异常", "被除数不得为0", "div0")
@@ -1362,8 +1406,16 @@ func runExc(t *zsim.Tape, cfg *hlib.Config, prop string) *hlib.Outcome {
 			selective[m.Name] = strings.Join(names, "、")
 		}
 	}
+	noContent := map[string]bool{}
 	for _, m := range p.Mods {
-		renderModule(t, m, true, selective)
+		for _, c := range m.Classes {
+			if c.NoContent {
+				noContent[c.Name] = true
+			}
+		}
+	}
+	for _, m := range p.Mods {
+		renderModule(t, m, true, selective, noContent)
 	}
 	// fault-free reference run counts the dynamic probe invocations
 	base := refRun(p, xPlan{})
